@@ -48,6 +48,9 @@ func effFB(s *NodeSpec) bool {
 }
 
 func scriptOf(s *NodeSpec, v int) Visit {
+	if v < 0 { // callbacks recorded before the node's first prep: there is no script for them (the judge reports the missing prep)
+		return Visit{FirstOK: 1, Post: EndAction}
+	}
 	if s.LoopN > 0 {
 		if v < s.LoopN {
 			return Visit{FirstOK: 1, Post: "loop"}
